@@ -12,7 +12,7 @@ use serde_json::{json, Value};
 use std::collections::HashSet;
 use std::hash::{Hash, Hasher};
 
-pub const RULE: &str = "cases = hostile strings pushed through Range::parse and Version::parse and, on whatever comes back, every accessor / diagnostic of an error and every operation on values (Display, Debug, Clone, Hash, serde, satisfies, min_version, max/min_satisfying, diff, intersect, difference, allows_all, allows_any; against themselves, each other in both orders, and results fed back to depth 3); strata: XR every string over a 16-character range alphabet up to length 5 (quick) / 7 (thorough), XV every string over the version alphabet up to length 6 / 9, P pair and triple operations over the structurally distinct ranges collected from XR, U random UTF-8 (multi-byte at every position, combining marks, NUL), L long inputs 1 KiB..1 MiB of 17 families, N near-limit numbers and lengths, T tuple conversions with extreme values (assertions-off shard); built with overflow checks and debug assertions on (and once with them off); events = Panic (first nodejs_semver:: frame), Abort (signal), Timeout (CPU limit), Superlinear (cachegrind instruction counts at n, 2n, 4n), UB report (Miri / memcheck slice); non-trivial = the string parses with at least one parser, or its error is not at offset 0; distinct = distinct strings / operand pairs";
+pub const RULE: &str = "cases = hostile strings pushed through Range::parse and Version::parse and, on whatever comes back, every accessor / diagnostic of an error and every operation on values (Display, Debug, Clone, Hash, serde, satisfies, min_version, max/min_satisfying, diff, intersect, difference, allows_all, allows_any; against themselves, each other in both orders, and results fed back to depth 3); strata: XR every string over a 16-character range alphabet up to length 5 (quick) / 7 (thorough), XV every string over the version alphabet up to length 6 / 9, P pair and triple operations over the structurally distinct ranges collected from XR, U random UTF-8 (multi-byte at every position, combining marks, NUL), L long inputs 1 KiB..1 MiB of 17 families, S long lists of distinct alternatives (ascending, descending, middle-out, windows, nested; 300..12000 alternatives) with every operation run on a 256 KiB stack, N near-limit numbers and lengths, F field-built versions with components in {0,1,2^63,2^64-2,2^64-1} each against all the others, T tuple conversions with extreme values (assertions-off shard); built with overflow checks and debug assertions on (and once with them off); events = Panic (first nodejs_semver:: frame), Abort (signal), Timeout (CPU limit), Superlinear (cachegrind instruction counts at n, 2n, 4n), UB report (Miri / memcheck slice); non-trivial = the string parses with at least one parser, or its error is not at offset 0; distinct = distinct strings / operand pairs";
 
 pub const SIGMA_R: &[char] = &['0', '1', '.', 'x', '*', '-', ' ', '|', '>', '<', '=', '~', '^', 'a', 'v', '+'];
 
@@ -284,6 +284,26 @@ fn short(s: &str) -> String {
     }
 }
 
+pub const LIST_FAMILIES: &[&str] = &["asc-major", "desc-major", "desc-patch", "asc-patch", "zigzag", "desc-windows", "asc-windows", "desc-pre", "nested-windows"];
+
+/// `n` distinct alternatives in a given order (text length grows with n)
+pub fn list_input(f: &str, n: usize) -> String {
+    let alts: Vec<String> = match f {
+        "asc-major" => (1..=n).map(|i| format!("{}.0.0", i)).collect(),
+        "desc-major" => (1..=n).rev().map(|i| format!("{}.0.0", i)).collect(),
+        "asc-patch" => (1..=n).map(|i| format!("1.0.{}", i)).collect(),
+        "desc-patch" => (1..=n).rev().map(|i| format!("1.0.{}", i)).collect(),
+        // middle-out: every new alternative falls inside a piece left by the earlier ones
+        "zigzag" => (0..n).map(|i| if i % 2 == 0 { format!("1.{}.0", n + i / 2) } else { format!("1.{}.0", n - 1 - i / 2) }).collect(),
+        "desc-windows" => (1..=n).rev().map(|i| format!(">=1.{}.2 <1.{}.7", i, i)).collect(),
+        "asc-windows" => (1..=n).map(|i| format!(">1.{}.2 <=1.{}.7", i, i)).collect(),
+        "desc-pre" => (1..=n).rev().map(|i| format!("1.0.0-{}", i)).collect(),
+        // each alternative strictly inside the previous one
+        _ => (0..n).map(|i| format!(">={}.0.0 <{}.0.0", i + 1, 2 * n + 2 - i)).collect(),
+    };
+    alts.join("||")
+}
+
 pub const FAMILIES: &[&str] = &["a", "blank", "v123_", "v123or", "foo_", "pre_ids", "ge_pre_long", "hyphen_", "dash_", "gt", "digits", "onedot", "xdot", "bar", "tilde_", "mixed", "eacute"];
 
 /// long input of family `f`, about `n` bytes
@@ -334,6 +354,41 @@ pub fn run(ctx: &mut Ctx) {
                 pool.add_range("Range::any()".into(), a.1, 0);
             }
             Err(p) => report_panic(ctx, "Range::any", json!("Range::any()"), p),
+        }
+    }
+    // ---- F: versions only reachable through the public fields / tuple conversions (any u64),
+    //      each against all the others: diff / cmp / Display / satisfies must not trap or wrap
+    ctx.stratum("F-field-built-extreme-versions", true);
+    {
+        let fields = [0u64, 1, 1 << 63, u64::MAX - 1, u64::MAX];
+        let mut fpool = Pool::new(16);
+        fpool.versions.clear();
+        for ma in fields {
+            for mi in fields {
+                for pa in fields {
+                    for tag in 0..3 {
+                        let pre = match tag {
+                            0 => vec![],
+                            1 => vec![nodejs_semver::Identifier::AlphaNumeric("rc".into())],
+                            _ => vec![nodejs_semver::Identifier::Numeric(u64::MAX)],
+                        };
+                        fpool.versions.push(Version { major: ma, minor: mi, patch: pa, pre_release: pre, build: vec![] });
+                    }
+                }
+            }
+        }
+        for t in ["*", "^1.2.3", "<1.0.0-a || >2", ">=900719925474099.900719925474099.900719925474099"] {
+            if let Ok(r) = Range::parse(t) {
+                fpool.add_range(t.to_string(), r, 0);
+            }
+        }
+        let vs = fpool.versions.clone();
+        for v in &vs {
+            if ctx.take() {
+                ctx.begin(|| format!("C06 F {:?}", (v.major, v.minor, v.patch, v.pre_release.len())));
+                ctx.class("F/field-built");
+                exercise_version(ctx, v, "field-built", &fpool);
+            }
         }
     }
     // ---- XR: exhaustive range alphabet
@@ -527,6 +582,59 @@ pub fn run(ctx: &mut Ctx) {
                 let mut out = vec![];
                 let (i, j) = (r.below(base.len()), r.below(base.len()));
                 exercise_pair(ctx, &base[i], &base[j], &mut out);
+            }
+        }
+    }
+    // ---- S: long lists of *distinct* alternatives on a small stack. Stack use of every
+    //      operation must not grow with the number of alternatives: the operations run on a
+    //      256 KiB thread (constant-depth code needs a few KiB), so recursion whose depth follows
+    //      the list length ends in a stack-overflow abort, which the orchestrator attributes.
+    ctx.stratum("S-long-alternative-lists-on-small-stack", false);
+    {
+        let sizes: &[usize] = if quick { &[300, 3000] } else { &[300, 3000, 12000] };
+        for fam in LIST_FAMILIES {
+            for &n in sizes {
+                if !ctx.take() {
+                    continue;
+                }
+                let text = list_input(fam, n);
+                ctx.begin(|| format!("C06 S list family {} n={}", fam, n));
+                ctx.class(&format!("list:{}:{}", fam, n));
+                ctx.eval(1);
+                let t2 = text.clone();
+                let h = std::thread::Builder::new().stack_size(256 * 1024).spawn(move || {
+                    guarded(|| {
+                        let r = match Range::parse(&t2) {
+                            Ok(r) => r,
+                            Err(_) => return 0usize,
+                        };
+                        let shown = r.to_string();
+                        let _ = Range::parse(&shown);
+                        let _ = r.min_version();
+                        let probe = [Version::from((1u64, 0, 0)), Version::from((0u64, 0, 1)), Version::from((5u64, 5, 5))];
+                        let _ = r.max_satisfying(&probe);
+                        let mut k = 0usize;
+                        for partner in ["*", ">=1.0.0 <2.0.0 || 3.x", "<1.0.0-0 || >=2.5.0", ">0.0.1 <=900719925474099.0.0"] {
+                            let q = Range::parse(partner).unwrap();
+                            k += q.difference(&r).map(|d| d.to_string().len()).unwrap_or(0);
+                            k += r.difference(&q).map(|d| d.to_string().len()).unwrap_or(0);
+                            k += q.intersect(&r).map(|d| d.to_string().len()).unwrap_or(0);
+                            k += r.intersect(&q).map(|d| d.to_string().len()).unwrap_or(0);
+                            k += (q.allows_all(&r) as usize) + (r.allows_all(&q) as usize) + (q.allows_any(&r) as usize) + (r.allows_any(&q) as usize);
+                        }
+                        if n <= 300 {
+                            let _ = r.intersect(&r);
+                            let _ = r.difference(&r);
+                        }
+                        k + (r.allows_all(&r) as usize) + (r.allows_any(&r) as usize)
+                    })
+                });
+                match h.map(|h| h.join()) {
+                    Ok(Ok(Ok(_))) => ctx.nontrivial(&format!("{}:{}", fam, n)),
+                    Ok(Ok(Err(p))) => report_panic(ctx, "list-ops", json!({"family": fam, "alternatives": n}), p),
+                    Ok(Err(_)) => ctx.inconclusive("small-stack thread ended without a result"),
+                    Err(e) => ctx.inconclusive(&format!("cannot spawn small-stack thread: {}", e)),
+                }
             }
         }
     }
